@@ -610,7 +610,7 @@ def tie_fill(res, rng, n):
                       found_input=False)
 
 
-def tie_fill_tr(res, rng, n):
+def tie_fill_tr(res, rng, n, cov=None):
     '''The FILL loop WITH transformations on generated decks: cell table
     captured from the real conversion before and after the loop vs
     ModelTr.fill_loop_tr.'''
@@ -626,7 +626,14 @@ def tie_fill_tr(res, rng, n):
         args = (['--always-inline-filled'] if fd else []) + \
             (['--always-inline-filling'] if fg else []) + \
             deckmod.lattice_args(dck)
-        got = tie.impl_fill_tr(text, args)
+        if cov is not None and len(cases) < 30:
+            # whole conversions are slow under the tracer: the first 30 decks
+            # are enough to execute every line of pot_fill / cell_transform /
+            # pot_transform
+            with cov:
+                got = tie.impl_fill_tr(text, args)
+        else:
+            got = tie.impl_fill_tr(text, args)
         if got is None:
             res.count('fill_tr:not-captured')
             continue
@@ -688,7 +695,7 @@ def classify_failures(text, lat, status):
 
 
 def run_sweep(res, tier, rng):
-    n_decks = 70 if tier == 'quick' else 600
+    n_decks = 60 if tier == 'quick' else 600
     n_points = 120 if tier == 'quick' else 200
     n_sigma = 100 if tier == 'quick' else 200
     jobs, metas = [], []
@@ -773,13 +780,29 @@ def run(res, tier, seed, proofs_ok):
     run_witnesses(res)
     run_witness_empty(res)
     run_corpus(res)
-    tie_eq(res, rng, 300 if quick else 4000)
-    tie_dedup(res, rng, 250 if quick else 2000)
-    tie_renumber(res, rng, 150 if quick else 1500)
-    tie_finish(res, rng, 250 if quick else 2000)
-    tie_inlining(res, rng, 250 if quick else 2000)
-    tie_fill(res, rng, 150 if quick else 1500)
-    tie_fill_tr(res, rng, 80 if quick else 800)
+    import c13_cov
+    cov = c13_cov.LineCov(c13_cov.anchored_functions())
+    with cov:
+        tie_eq(res, rng, 300 if quick else 4000)
+        tie_dedup(res, rng, 250 if quick else 2000)
+        tie_renumber(res, rng, 150 if quick else 1500)
+        tie_finish(res, rng, 250 if quick else 2000)
+        tie_inlining(res, rng, 250 if quick else 2000)
+        tie_fill(res, rng, 150 if quick else 1500)
+    tie_fill_tr(res, rng, 60 if quick else 800, cov)
+    total, missing = cov.missing(c13_cov.UNREACHABLE)
+    res.obligation('coverage: the tied calls execute every reachable line of '
+                   f'the anchored functions ({total} lines of {len(cov.codes)} '
+                   'code objects)', not missing,
+                   f'never executed: {missing[:6]}')
+    res.extra['anchored_lines'] = total
+    if missing:
+        res.violation('harness-error',
+                      'the ties no longer reach these lines of the anchored '
+                      f'code (strengthen the generators): {missing[:8]}',
+                      {'theorem_or_correspondence': 'coverage',
+                       'input': {'lines': [list(m) for m in missing[:20]]}},
+                      found_input=False)
     run_sweep(res, tier, rng)
 
 
